@@ -612,6 +612,7 @@ func runC19(c *Ctx) {
 	c19Reducers(c)
 	c19Loop(c)
 	c19Timelines(c)
-	c19Retune(c)    // T6 raised / lowered on the live connection (c19_retune.go)
-	c19WriteFail(c) // probes / dead-link drop after a data send whose transport write failed (c19_writefail.go)
+	c19SlowHandler(c) // a frame that arrived counts as life even while its handler is still running (c19_retune.go)
+	c19Retune(c)      // T6 raised / lowered on the live connection (c19_retune.go)
+	c19WriteFail(c)   // probes / dead-link drop after a data send whose transport write failed (c19_writefail.go)
 }
